@@ -24,6 +24,8 @@ var c04Cfg = kit.WorldCfg{Stores: []kit.StoreCfg{
 	{Name: "kn", RefTo: "kt", RefWiring: kit.WireFkIndexNullable},
 	{Name: "kx", RefTo: "kt", RefWiring: kit.WireConstraintNone},
 	{Name: "kd", RefTo: "kt", RefWiring: kit.WireFkIndexCascade},
+	// ... and one whose back-reference set is declared on the parent store of that child store
+	{Name: "kp", RefTo: "kt", RefWiring: kit.WireFkIndexNullable, BackRefOnParent: true},
 	// a hierarchy inside one store: deleting a node removes its whole sub-tree (cascade through the same constraint, re-entrantly)
 	{Name: "tree", RefTo: "tree", RefWiring: kit.WireConstraintDel},
 	// "bk" is a child store over the referrer store bn: the non-nullable reference is declared on its parent
@@ -50,7 +52,7 @@ func genC04(t *rapid.T) kit.History {
 	refs = append(refs, kit.Sp("missing"), kit.Sp(""))
 	// each history concentrates on 2-4 of the referrer stores, so that an entity is usually written several times
 	// (re-parented, patched, deleted) rather than nine stores receiving one operation each
-	allRefStores := []string{"an", "bn", "cn", "cd", "ec", "mgr", "kn", "kx", "kd", "tree", "tree"}
+	allRefStores := []string{"an", "bn", "cn", "cd", "ec", "mgr", "kn", "kx", "kd", "kp", "tree", "tree"}
 	var refStores []string
 	for i, k := 0, rapid.IntRange(2, 4).Draw(t, "nRefStores"); i < k; i++ {
 		refStores = append(refStores, allRefStores[rapid.IntRange(0, len(allRefStores)-1).Draw(t, fmt.Sprintf("refStore%d", i))])
@@ -122,7 +124,7 @@ func genC04(t *rapid.T) kit.History {
 			if store == "mgr" || store == "tree" {
 				pool = existing(store)
 			}
-			if store == "kn" || store == "kx" || store == "kd" {
+			if store == "kn" || store == "kx" || store == "kd" || store == "kp" {
 				pool = nil
 				for _, id := range targets {
 					if m.LinkEndExists("kt", id) || rapid.IntRange(0, 5).Draw(t, l+"_plainTarget") == 0 {
@@ -319,7 +321,7 @@ func runC04(c c04Case) kit.Result {
 					deleteReferenced = true
 					for s := range refs {
 						switch s {
-						case "kn", "kx", "kd":
+						case "kn", "kx", "kd", "kp":
 							childTarget = true
 						}
 						switch s {
